@@ -273,6 +273,41 @@ def snapshot(v):
     return _copy.deepcopy(v)
 
 
+def _is_plain_object(x):
+    return hasattr(x, "__dict__") or hasattr(type(x), "__slots__")
+
+
+def _attrs(x):
+    out = dict(vars(x)) if hasattr(x, "__dict__") else {}
+    for c in type(x).__mro__:
+        sl = c.__dict__.get("__slots__", ())
+        for k in ([sl] if isinstance(sl, str) else sl):
+            if k not in ("__dict__", "__weakref__") and hasattr(x, k):
+                if k.startswith("__") and not k.endswith("__"):
+                    continue
+                out.setdefault(k, getattr(x, k))
+    return out
+
+
+def _public_properties(cls):
+    out, seen = [], set()
+    for c in cls.__mro__:
+        for k, v in c.__dict__.items():
+            if k in seen:
+                continue
+            seen.add(k)
+            if isinstance(v, property) and not k.startswith("_") and v.fget is not None and not getattr(v, "__isabstractmethod__", False):
+                out.append(k)
+    return sorted(out)
+
+
+def _get_prop(obj, name):
+    try:
+        return ("ok", getattr(obj, name))
+    except Exception as e:  # noqa
+        return ("raised", type(e))
+
+
 def same_state(a, b, ignore=()):
     import enum
     ign = set(ignore)
@@ -293,18 +328,34 @@ def same_state(a, b, ignore=()):
             return type(x) is type(y) and len(x) == len(y) and all(rec(p, q) for p, q in zip(x, y))
         if isinstance(x, dict) and isinstance(y, dict):
             return len(x) == len(y) and all(rec(k1, k2) and rec(v1, v2) for (k1, v1), (k2, v2) in zip(x.items(), y.items()))
-        if hasattr(x, "__dict__") and hasattr(y, "__dict__"):
+        if _is_plain_object(x) and _is_plain_object(y):
             key = (id(x), id(y))
             if key in seen:
                 return True
             seen.add(key)
             if type(x) is not type(y):
                 return False
-            kx = {k for k in vars(x) if k not in ign}
-            ky = {k for k in vars(y) if k not in ign}
+            # observable state: public attributes and public properties (see pyvc/spec_prims.same_state)
+            ax, ay = _attrs(x), _attrs(y)
+            kx = {k for k in ax if k not in ign and not k.startswith("_")}
+            ky = {k for k in ay if k not in ign and not k.startswith("_")}
             if kx != ky:
                 return False
-            return all(rec(vars(x)[k], vars(y)[k]) for k in kx)
+            if not all(rec(ax[k], ay[k]) for k in kx):
+                return False
+            for name in _public_properties(type(x)):
+                if name in ign or name in kx:
+                    continue
+                ox, oy = _get_prop(x, name), _get_prop(y, name)
+                if ox[0] != oy[0]:
+                    return False
+                if ox[0] == "raised":
+                    if ox[1] is not oy[1]:
+                        return False
+                    continue
+                if not rec(ox[1], oy[1]):
+                    return False
+            return True
         try:
             import collections
             if isinstance(x, collections.deque) and isinstance(y, collections.deque):
